@@ -314,6 +314,8 @@ def judge_window(ctx, case, n, rc, rep, out, err, verbose=False):
     if rc == 124:
         ctx.inconclusive("lint-timeout")
         return
+    if isinstance(rep, dict) and "Files" not in rep and rep.get("Steps"):
+        rep["Files"] = []  # omitted when empty: every file of the window is skipped by a bare file-level nolint
     if rep is None or not isinstance(rep.get("Files"), list):
         ctx.inconclusive("lint-no-json")
         ctx.sample({"lint-no-json": {"rc": rc, "stdout": out[-300:], "stderr": err[-300:], "evo": case.get("evo"), "N": n}}, cap=12)
